@@ -13,7 +13,7 @@ function makeEnv(variant = 0) {
   const bound = {
     Comp: comp('Comp'), B: comp('B'),
     ns: { Comp: comp('ns.Comp'), b: { c: comp('ns.b.c') } },
-    h1: fn('h1'), h2: fn('h2'),
+    h1: fn('h1'), h2: fn('h2'), h3: fn('h3'), h4: fn('h4'),
     c1: 'c1cls', st1: { fontSize: '1px' },
     o: { p: 'op' + variant, q: { r: 'oqr' } },
     x: 'xval' + variant, y: 'yval' + variant, xs: ['xs0', 'xs1' + variant], c: true,
@@ -72,8 +72,8 @@ const ATTRS = {
   sp2:      { src: '{...s2}', m: S((e) => e.bound.s2), fk: 'spread' },
   spObj:    { src: "{...{ id: 'z', class: 'q' }}", m: S(() => ({ id: 'z', class: 'q' })), fk: 'spread' },
   spCall:   { src: '{...g()}', m: S((e) => e.gres), fk: 'spread' },
-  on:       { src: 'on={{ click: h1 }}', m: ON('on', (e) => ({ click: e.bound.h1 })), fk: 'on' },
-  nativeOn: { src: 'nativeOn={{ foo: h2 }}', m: ON('nativeOn', (e) => ({ foo: e.bound.h2 })), fk: 'on' },
+  on:       { src: 'on={{ click: h3 }}', m: ON('on', (e) => ({ click: e.bound.h3 })), fk: 'on' },
+  nativeOn: { src: 'nativeOn={{ foo: h4 }}', m: ON('nativeOn', (e) => ({ foo: e.bound.h4 })), fk: 'on' },
 };
 for (const k of Object.keys(ATTRS)) ATTRS[k].k = k;
 
@@ -139,7 +139,7 @@ function optsJson(o) {
   return JSON.stringify(j);
 }
 
-const PRELUDE = 'const { Comp, B, ns, s1, s2, h1, h2, c1, st1, o, x, y, xs, c, k1, r1, arr, dyn, t, f, g } = __env.bound;\nlet mv = __env.mv0;\n__out.read = () => ({ mv, o, arr });\n__out.write = (v) => { mv = v; };\n';
+const PRELUDE = 'const { Comp, B, ns, s1, s2, h1, h2, h3, h4, c1, st1, o, x, y, xs, c, k1, r1, arr, dyn, t, f, g } = __env.bound;\nlet mv = __env.mv0;\n__out.read = () => ({ mv, o, arr });\n__out.write = (v) => { mv = v; };\n';
 
 function renderJsx(host, attrSrcs, childSrcs) {
   const h = HOSTS[host];
